@@ -106,6 +106,14 @@ def main():
                 "confirmed": {"tests_with_patch": "59 passed", "demo_on_original": 0, "demo_on_patched": "non-zero"},
                 "ran": "tools/mutant.py confirm + check --tier quick (scratch worktree via VERIF_REPO)",
                 "what": extra.get(key, {}).get("what", title), "needs": extra.get(key, {}).get("needs", needs_of(notes)), "caught_by": caught}
+        old = os.path.join(dst, "meta.json")
+        if os.path.exists(old):
+            try:
+                o = json.load(open(old))
+                if "applies_to" in o:
+                    meta["applies_to"] = o["applies_to"]
+            except Exception:
+                pass
         if key in extra and "remark" in extra[key]:
             meta["remark"] = extra[key]["remark"]
         json.dump(meta, open(os.path.join(dst, "meta.json"), "w"), indent=1)
